@@ -684,7 +684,10 @@ impl Range {
                 let separator = [SYMBOL.hyphen, SYMBOL.hyphen, Range::STRING_SEPARATOR].join("");
                 while !buf.starts_with(separator.as_bytes()) {
                     buf = vec![];
-                    cursor.read_until(b'\n', &mut buf).unwrap();
+                    let bytes_offset = cursor.read_until(b'\n', &mut buf).unwrap();
+                    if bytes_offset == 0 {
+                        return Err("Unable to parse multipart body, reached the end of stream and it does not contain boundary".to_string());
+                    }
                     let separator = [SYMBOL.hyphen, SYMBOL.hyphen, Range::STRING_SEPARATOR].join("");
                     if !buf.starts_with(separator.as_bytes()) {
                         body = [body, buf.to_vec()].concat();
